@@ -757,7 +757,7 @@ impl Prop for C06P {
         "C06"
     }
     fn rule(&self) -> String {
-        "source texts from seven generators, four cases in ten with a multi-byte letter appended to every generated name so that cited locations border on multi-byte characters (random token sequences over the full token alphabet incl. non-ASCII, malformed and unterminated literals; valid generated programs with 1-3 token/character-level mutations; syntactically valid but mostly ill-typed programs; well-typed programs with one type-breaking edit; graphs of 1-5 record/enum declarations referring to themselves and each other directly and through options, lists, anonymous records, Result and type arguments with matching and mismatching arity; import statements with valid and invalid paths, groups, duplicates and clashes at top level and inside bodies; duplicate declarations of every kind and self-referential inference knots such as `let x = []; x.push({ a: x })`), as single files and as 2-3 module trees (sometimes with a root item named like a child module, so that one error is labelled in two files), bracket nesting <= 64; oracle: FileTree::compile returns a package or a report, the report renders with and without colour, every cited location lies in its file on char boundaries; any panic/abort/stack overflow is a violation. Non-trivial: the input gets past the parser or is longer than 20 bytes; distinct by text".into()
+        "source texts from ten generators, four cases in ten with a multi-byte letter appended to every generated name so that cited locations border on multi-byte characters (random token sequences over the full token alphabet incl. non-ASCII, malformed and unterminated literals; valid generated programs with 1-3 token/character-level mutations; syntactically valid but mostly ill-typed programs; well-typed programs with one type-breaking edit; graphs of 1-5 record/enum declarations referring to themselves and each other directly and through options, lists, anonymous records, Result and type arguments with matching and mismatching arity; import statements with valid and invalid paths, groups, duplicates and clashes at top level and inside bodies; operator chains of 20-64 operands; declarations with 127-300 variants, fields or parameters; types without values in records, constants and lists; script types named like built-in ones; duplicate declarations of every kind and self-referential inference knots such as `let x = []; x.push({ a: x })`), as single files and as 2-3 module trees (sometimes with a root item named like a child module, so that one error is labelled in two files), bracket nesting <= 64; oracle: FileTree::compile returns a package or a report, the report renders with and without colour, every cited location lies in its file on char boundaries; any panic/abort/stack overflow is a violation. Non-trivial: the input gets past the parser or is longer than 20 bytes; distinct by text".into()
     }
     fn assumptions(&self) -> Vec<String> {
         vec![
